@@ -400,7 +400,7 @@ def predict (k : Kind) (o : Oracle) (obs : String) : Obs :=
   * connection-reuse transports: however many stale connections the pool holds, if a dial reaches
     a healthy server (and the context is live) the exchange succeeds;
   * a bounded number of attempts; a failure on a freshly dialled connection is reported, not
-    retried: at most one dial per exchange;
+    retried: the exchange fails, no further attempt is made, at most one dial per exchange;
   * when connections die (no silent fault involved) the exchange ends promptly, and so does
     every other exchange that was waiting on such a connection; dead connections are closed. -/
 
@@ -417,8 +417,18 @@ def staleThenHealthy (lim : Nat) (l : List Attempt) : Bool :=
 def stalePoolHealthyServer (l : List Attempt) : Bool :=
   l.all fun a => (isHealthy a || isStale a) && (a.forced.getD none).isSome
 
+/-- after `j ≤ poolLim` stale pooled attempts the script's next attempt is on a freshly dialled
+    connection and fails: `some j` -/
+def freshFailureAt (lim : Nat) (l : List Attempt) : Option Nat :=
+  let j := (l.takeWhile isStale).length
+  let a := l.getD j defaultAttempt
+  if decide (j ≤ lim) && a.get == .fresh && a.res.isNone then some j else none
+
 def spec (k : Kind) (l : List Attempt) (o : Obs) : Bool :=
   o.t != "late" &&
+  (match freshFailureAt k.poolLim l with
+   | some j => !o.ok && (match o.att with | some a => decide (a ≤ j + 1) | none => true)
+   | none => true) &&
   (if k != .doh && staleThenHealthy k.poolLim l then o.ok else true) &&
   (if k == .reuse && stalePoolHealthyServer l then o.ok else true) &&
   (match o.att with | some a => decide (a ≤ k.lim + 1) | none => true) &&
@@ -428,6 +438,9 @@ def spec (k : Kind) (l : List Attempt) (o : Obs) : Bool :=
 
 def specReason (k : Kind) (l : List Attempt) (o : Obs) : String :=
   if o.t == "late" then "late"
+  else if (match freshFailureAt k.poolLim l with
+      | some j => o.ok || (match o.att with | some a => decide (a > j + 1) | none => false)
+      | none => false) then "fresh-failure-not-returned"
   else if k != .doh && staleThenHealthy k.poolLim l && !o.ok then "stale-not-survived"
   else if k == .reuse && stalePoolHealthyServer l && !o.ok then "stale-pool-not-survived"
   else if (match o.att with | some a => decide (a > k.lim + 1) | none => false) then "unbounded"
